@@ -31,6 +31,7 @@ type Program struct {
 	cs      *ContractSet
 	fnByKey map[string]*ssa.Function
 	genSrc  string
+	pkgDir  string // directory of the package under verification
 	genMap  map[string]*Clause // clause fn name -> clause
 	modPath string             // module path prefix: functions under it may be inlined
 	ghost   map[string]bool
@@ -94,7 +95,11 @@ func loadProgram(repoDir, pkgPattern, extDir string) (*Program, error) {
 	if len(p0.Errors) > 0 {
 		return nil, fmt.Errorf("package errors: %v", p0.Errors)
 	}
-	P := &Program{fset: p0.Fset, pkgPath: p0.PkgPath, fnByKey: map[string]*ssa.Function{}, genMap: map[string]*Clause{}, ghost: map[string]bool{}}
+	pkgDir0 := ""
+	if len(p0.GoFiles) > 0 {
+		pkgDir0 = filepath.Dir(p0.GoFiles[0])
+	}
+	P := &Program{fset: p0.Fset, pkgDir: pkgDir0, pkgPath: p0.PkgPath, fnByKey: map[string]*ssa.Function{}, genMap: map[string]*Clause{}, ghost: map[string]bool{}}
 	if p0.Module != nil {
 		P.modPath = p0.Module.Path
 	}
